@@ -163,6 +163,69 @@ class Isa(object):
             bs = bs[::-1]
         return bs
 
+    # ---- dependency-biased generation (used by the semantic checks) --------------
+    CORE = ("ADD", "SUB", "AND", "OR", "XOR", "EOR", "MOV", "LD", "ST", "LDR", "STR", "CMP", "LEA", "INC", "DEC", "NEG", "NOT",
+            "ADC", "SBB", "SBC", "RSB", "MUL", "IMUL", "SHL", "SHR", "SAR", "SAL", "ROR", "ROL", "LSL", "LSR", "ASR", "SLL", "SRL", "SRA",
+            "PUSH", "POP", "TEST", "TST", "LW", "SW", "LB", "SB", "LH", "LUI", "AUIPC", "SLT", "XCHG", "MVN", "BIC", "CP", "EX",
+            "MOVZX", "MOVSX", "MOVSXD", "SETCC", "CMOVCC", "BSWAP", "XADD", "DIV", "IDIV", "NOP", "ADDI", "ANDI", "ORI", "XORI")
+    REGFIELD = re.compile(r"^(r[a-z]?[0-9]?|R[a-zA-Z]?[0-9]?|rs1|rs2|rd|rt|rs|ra|rb|rc|reg|REG|RM|rm|Rdn|Rdm|src|dst|s1|s2|d|a|b|c|n|m|t)$")
+
+    def _spec_info(self, mode):
+        from vlib import fmtlang
+
+        if not hasattr(self, "_info"):
+            self._info = {}
+        if mode not in self._info:
+            core = []
+            fields = {}
+            for k, sp in enumerate(self.specs[mode]):
+                mn = str(sp.iattr.get("mnemonic", "")).upper()
+                if any(mn == c or (mn.startswith(c) and len(mn) <= len(c) + 2) for c in self.CORE) and sp.pfx is not True:
+                    core.append(k)
+                try:
+                    fl = fmtlang.interp(sp.format).fields
+                except Exception:
+                    fl = {}
+                fields[k] = [(n, lo, hi) for n, (o, lo, hi) in fl.items() if hi is not None and 2 <= hi - lo <= 5 and self.REGFIELD.match(n)]
+                if "Mod" in fl and fl["Mod"][2] is not None:
+                    fields[k].append(("Mod", fl["Mod"][1], fl["Mod"][2]))
+            self._info[mode] = (core, fields)
+        return self._info[mode]
+
+    def gen_instr_bytes(self, rnd, mode, endian):
+        """one encoding biased towards common integer instructions on a small set of registers, so
+        that generated sequences have data dependencies (no tail, no truncation, no bit flips)"""
+        S = self.specs[mode]
+        core, fields = self._spec_info(mode)
+        if core and rnd.random() < 0.7:
+            k = core[rnd.randrange(len(core))]
+        else:
+            k = rnd.randrange(len(S))
+        sp = S[k]
+        size = sp.fix.size
+        v = (rnd.getrandbits(size) & ~sp.mask.ival) | sp.fix.ival
+        for (n, lo, hi) in fields[k]:
+            if rnd.random() < 0.75:
+                w = hi - lo
+                if n == "Mod":
+                    val = 3 if rnd.random() < 0.6 else 0
+                else:
+                    val = [0, 1, 2, 3][rnd.randrange(4)] & ((1 << w) - 1)
+                    if self.is_x86 and n == "RM" and val == 2:
+                        val = 3
+                keep = ((1 << size) - 1) ^ (((1 << w) - 1) << lo)
+                v = (v & keep) | (val << lo)
+        v = (v & ~sp.mask.ival) | sp.fix.ival
+        b = v.to_bytes(size // 8, "little")
+        if endian == -1:
+            b = b[::-1]
+        if sp.size == 0:  # variable length: immediates / displacements follow
+            b += bytes(rnd.getrandbits(8) for _ in range(rnd.randrange(0, 9))) if rnd.random() < 0.8 else bytes(8)
+        if self.is_x86 and rnd.random() < 0.2:
+            pool = [0x66] + ([0x48, 0x41, 0x44] if self.is_x64 else [])
+            b = bytes([pool[rnd.randrange(len(pool))]]) + b
+        return b
+
     def gen_bytes(self, rnd, mode, endian, tail=True, index=None):
         """spec-guided byte string (mostly decodable), mixed with random
         strings, truncations and bit flips. All randomness comes from rnd.
